@@ -402,8 +402,8 @@ def PyAlg : Alg where
 A `Qint` value is its little-endian bit list; its type is the length of the list.  Mirrors
 `QintImp.const/fill/crop/add/bitwise_generic/eq/neq`, `Qtype.shift_left/shift_right/bitwise_not`,
 `const_to_qtype`, and the `IfExp` / `BoolOp` / `Compare` / `BinOp` branches of
-`translate_expression`.  Operators outside this set (`-`, `<`, `<=`, `>`, `>=`, `*`, `%`) are
-`none`: the width model does not speak about them. -/
+`translate_expression`; `QintImp.gt/lt/lte/gte/sub` with their C01 quirks `gtLeftNarrow`,
+`subLeftNarrow`.  Operators outside this set (`*`, `%`) are `none`. -/
 
 inductive WV where
   | b (v : Bool)
@@ -453,7 +453,28 @@ def wzipWith (f : Bool → Bool → Bool) : List Bool → List Bool → List Boo
 def weq (a b : List Bool) : Bool :=
   (wzipWith (fun x y => x == y) a b).all id && (a.drop b.length).all (!·) && (b.drop a.length).all (!·)
 
-def wBin (op : BinOp) (x y : WV) (lit : Option Int) : Option WV :=
+/-- little-endian value of a bit list -/
+def wval : List Bool → Nat
+  | [] => 0
+  | b :: l => (if b then 1 else 0) + 2 * wval l
+
+/-- `QintImp.gt`: MSB-first comparison of the common low parts, then the surplus bits of the longer
+    operand: of the left OR-ed in; of the right OR-ed in as well with quirk `gtLeftNarrow` (the code
+    today), AND-NOT-ed in the repaired code -/
+def wgt (q : Quirks) (a b : List Bool) : Bool :=
+  let m := min a.length b.length
+  let ex := decide (wval (a.take m) > wval (b.take m)) || (a.drop m).any id
+  if q.gtLeftNarrow then ex || (b.drop m).any id else ex && (b.drop m).all (!·)
+
+/-- `QintImp.sub` with `cls` = the left operand's class: `~(~l + r)`; with quirk `subLeftNarrow`
+    (the code today) a narrower left operand is complemented before `add` zero-fills it -/
+def wsub (q : Quirks) (a b : List Bool) : List Bool :=
+  let r1 := wfill a.length b
+  let l2 := if q.subLeftNarrow then a else wfill r1.length a
+  let (x, y) := wfillBoth (l2.map (!·)) r1
+  (wadd false x y).map (!·)
+
+def wBin (q : Quirks) (op : BinOp) (x y : WV) (lit : Option Int) : Option WV :=
   match op, x, y with
   | .and, .b a, .b b => some (.b (a && b))
   | .or, .b a, .b b => some (.b (a || b))
@@ -470,6 +491,11 @@ def wBin (op : BinOp) (x y : WV) (lit : Option Int) : Option WV :=
       | .bxor => let (a', b') := wfillBoth a b; some (.q (wzipWith (· != ·) a' b'))
       | .eq => some (.b (weq a b))
       | .ne => some (.b (!(weq a b)))
+      | .gt => some (.b (wgt q a b))
+      | .le => some (.b (!(wgt q a b)))
+      | .lt => some (.b (!(wgt q a b) && !(weq a b)))
+      | .ge => some (.b (wgt q a b || weq a b))
+      | .sub => some (.q (wsub q a b))
       | .shl => match lit with
           | some k => if k < 0 then none else
               some (.q (wcrop a.length (List.replicate k.toNat false ++ a)))
@@ -495,7 +521,7 @@ def wCastList : List Ty → List WV → Option (List WV)
   | _, _ => none
 end
 
-def WAlg : Alg where
+def WAlg (q : Quirks) : Alg where
   V := WV
   const a := match a with
     | .b v => some (.b v)
@@ -506,7 +532,7 @@ def WAlg : Alg where
     | .not, .b x => some (.b (!x))
     | .inv, .q l => some (.q (l.map (!·)))
     | _, _ => none
-  bin := wBin
+  bin := wBin q
   ite c t e := match c, t, e with
     | .b cv, some (.b x), some (.b y) => some (.b (if cv then x else y))
     | .b cv, some (.q x), some (.q y) =>
